@@ -24,12 +24,14 @@ open Tw.Snap
 theorem tie_consts :
     maxSize = 65536 ∧ maxItems = 1024 ∧ typeIdEx = 0 ∧ offsetExt = 16384 := by decide
 
-/-- Tie to the source: the shifts/masks of `key`, `key_to_id`, `key_to_raw_type_id`, the header
+/-- (Lists are the *significant numbers* of each function: its integer literals and the values of
+the named constants it mentions, as a sorted set without 0 and 1 — see `exlib.significant_set`.)
+Tie to the source: the shifts/masks of `key`, `key_to_id`, `key_to_raw_type_id`, the header
 padding word of `DeltaHeader::encode_obj`, the `2 +` of `serialized_ints_size`. -/
 theorem tie_literals :
     Tw.Gen.Snap.lits_key = [16] ∧ Tw.Gen.Snap.lits_key_to_id = [65535] ∧
-    Tw.Gen.Snap.lits_key_to_raw_type_id = [16, 65535] ∧ Tw.Gen.Snap.lits_encode_obj = [0] ∧
-    Tw.Gen.Snap.lits_serialized_ints_size = [2] ∧ Tw.Gen.Snap.lits_prepare_item_vacant = [1, 1, 0] := by
+    Tw.Gen.Snap.lits_key_to_raw_type_id = [16, 65535] ∧ Tw.Gen.Snap.lits_encode_obj = [] ∧
+    Tw.Gen.Snap.lits_serialized_ints_size = [2] ∧ Tw.Gen.Snap.lits_prepare_item_vacant = [1024, 65536] := by
   decide
 
 /-- The full-strength statement of the first sentence of C09 (every pair of snapshots). -/
